@@ -27,6 +27,23 @@ def fl(x: float) -> str:
     return frac_str(F(x))
 
 
+
+def cap_violations(ctx, per_key=12):
+    """keep the shared 200-entry violation list from being filled by one (possibly known) key: at most `per_key` replays per key are recorded"""
+    if getattr(ctx, "_gmx_capped", False):
+        return
+    orig, seen = ctx.violate, {}
+
+    def violate(key, what, replay):
+        seen[key] = seen.get(key, 0) + 1
+        if seen[key] <= per_key:
+            orig(key, what, replay)
+        else:
+            ctx.notes["violations_not_recorded_" + key] = seen[key] - per_key
+    ctx.violate = violate
+    ctx._gmx_capped = True
+
+
 # ============================================================================================== v1
 _recorded = None
 
